@@ -18,15 +18,80 @@ func init() {
 		Assume: cryptoAssume, Run: runC05})
 }
 
-func runC05(r *mc.Run) {
+// c05env is everything that depends on the serial numbers of the certificates under test.
+type c05env struct {
+	shape                        string
+	w                            *world.World
+	pki                          *world.PKI
+	tcb2                         *x509.Certificate
+	tcb2Key                      *world.Key
+	rootDP                       map[string]*x509.Certificate
+	leafSN, interSN, tcbSN, qeSN *big.Int
+	pckSets, rootSets            []c05rset
+	pckSigners, rootSigners      []c05signer
+}
+
+type c05rset struct {
+	name   string
+	list   []*big.Int
+	benign bool
+}
+
+type c05signer struct {
+	name   string
+	issuer *x509.Certificate
+	key    *world.Key
+	ok     bool
+}
+
+const c05dp2 = "https://certificates.trustedservices.intel.com/IntelSGXRootCA-mirror.der"
+
+// c05Shapes: serial-number shapes of the four certificates a CRL can name (leaf, intermediate,
+// TCB-Info signer, QE-Identity signer): as the generator derives them, with a zero top nibble,
+// single digit, high bit set (DER needs a leading zero octet) and the 20-octet maximum.
+func c05Shapes() []struct {
+	name    string
+	serials [4]*big.Int
+} {
+	hexInt := func(h string) *big.Int { v, _ := new(big.Int).SetString(h, 16); return v }
+	return []struct {
+		name    string
+		serials [4]*big.Int
+	}{
+		{"derived", [4]*big.Int{nil, nil, nil, big.NewInt(0x5151515151)}},
+		{"zero-top-nibble", [4]*big.Int{hexInt("0a3c5e7f9b1d2f4061"), hexInt("0190aabbccddeeff00112233"), hexInt("0f00000000000001"), hexInt("05a5a5a5a5")}},
+		{"single-digit", [4]*big.Int{big.NewInt(5), big.NewInt(6), big.NewInt(7), big.NewInt(9)}},
+		{"high-bit", [4]*big.Int{hexInt("ff3c5e7f9b1d2f4061aabb"), hexInt("80000000000000000001"), hexInt("c0ffee00c0ffee"), hexInt("fedcba9876543210")}},
+		{"20-octets", [4]*big.Int{hexInt("7fffffffffffffffffffffffffffffffffffff01"), hexInt("7fffffffffffffffffffffffffffffffffffff02"), hexInt("100000000000000000000000000000000000ab03"), hexInt("0123456789abcdef0123456789abcdef01234504")}},
+	}
+}
+
+func c05Env(shape string, serials [4]*big.Int) *c05env {
+	e := &c05env{shape: shape}
 	w := world.Honest("T")
 	F := world.CachedPKI("F")
+	base := w.PKI
+	pk := *base
+	if serials[1] != nil {
+		pk.Inter = world.MakeCert(world.CertSpec{CN: world.CNPlatform, IsCA: true, Key: base.InterKey, MaxPathLen: -1, Serial: serials[1]}, base.Root, base.RootKey)
+	}
+	if serials[0] != nil {
+		pk.Leaf = world.MakeCert(world.CertSpec{CN: world.CNLeaf, Key: base.LeafKey, SGXExt: world.SGXExtension(w.Plat), Serial: serials[0]}, pk.Inter, base.InterKey)
+	}
+	if serials[2] != nil {
+		pk.Tcb = world.MakeCert(world.CertSpec{CN: world.CNTcb, Key: base.TcbKey, Serial: serials[2]}, base.Root, base.RootKey)
+	}
+	w.PKI = &pk
+	w.Spec.PKI = w.PKI
+	w.Parts = w.Spec.Parts()
+	w.Finish()
 	pki := w.PKI
+	e.w, e.pki = w, pki
 	// distinct signing certificates for the two JSON documents
 	tcb2Key := world.NewKey("T/tcb2")
-	tcb2 := world.MakeCert(world.CertSpec{CN: world.CNTcb, Key: tcb2Key, Serial: big.NewInt(0x5151515151)}, pki.Root, pki.RootKey)
+	tcb2 := world.MakeCert(world.CertSpec{CN: world.CNTcb, Key: tcb2Key, Serial: serials[3]}, pki.Root, pki.RootKey)
 	// issuer roots with other distribution-point lists (same key and name as the trusted root)
-	const dp2 = "https://certificates.trustedservices.intel.com/IntelSGXRootCA-mirror.der"
+	const dp2 = c05dp2
 	rootDP := map[string]*x509.Certificate{
 		"none": world.MakeCert(world.CertSpec{CN: world.CNRoot, IsCA: true, Key: pki.RootKey, MaxPathLen: 1, NoCRLDP: true}, nil, pki.RootKey),
 		"two":  world.MakeCert(world.CertSpec{CN: world.CNRoot, IsCA: true, Key: pki.RootKey, MaxPathLen: 1, CRLDP: []string{world.RootCRLURL, dp2}}, nil, pki.RootKey),
@@ -45,11 +110,7 @@ func runC05(r *mc.Run) {
 	}
 	big20 := new(big.Int).Lsh(big.NewInt(0x7f), 152)
 	pm := func(v *big.Int, d int64) *big.Int { return new(big.Int).Add(v, big.NewInt(d)) }
-	type rset struct {
-		name   string
-		list   []*big.Int
-		benign bool
-	}
+	type rset = c05rset
 	pckSets := []rset{{"none", nil, true}, {"unrelated", []*big.Int{unrelated}, true}, {"leaf-1", []*big.Int{pm(leafSN, -1)}, true}, {"leaf+1", []*big.Int{pm(leafSN, 1)}, true},
 		{"20-byte", []*big.Int{big20}, true}, {"100-unrelated", many(nil), true}, {"cross:inter+tcb-signers", []*big.Int{interSN, tcbSN, qeSN}, true},
 		{"leaf", []*big.Int{leafSN}, false}, {"leaf-among-100", many(leafSN), false}, {"leaf-last", []*big.Int{unrelated, big20, leafSN}, false}}
@@ -57,16 +118,24 @@ func runC05(r *mc.Run) {
 		{"100-unrelated", many(nil), true}, {"cross:leaf", []*big.Int{leafSN}, true},
 		{"inter", []*big.Int{interSN}, false}, {"tcbinfo-signer", []*big.Int{tcbSN}, false}, {"qeidentity-signer", []*big.Int{qeSN}, false},
 		{"inter-among-100", many(interSN), false}, {"qeidentity-signer-last", []*big.Int{unrelated, qeSN}, false}}
-	type signer struct {
-		name   string
-		issuer *x509.Certificate
-		key    *world.Key
-		ok     bool
-	}
+	type signer = c05signer
 	pckSigners := []signer{{"inter", pki.Inter, pki.InterKey, true}, {"root", pki.Root, pki.RootKey, false}, {"F.inter", F.Inter, F.InterKey, false},
 		{"inter-name/leaf-key", pki.Inter, pki.LeafKey, false}, {"inter-name/root-key", pki.Inter, pki.RootKey, false}}
 	rootSigners := []signer{{"root", pki.Root, pki.RootKey, true}, {"inter", pki.Inter, pki.InterKey, false}, {"F.root", F.Root, F.RootKey, false},
 		{"root-name/inter-key", pki.Root, pki.InterKey, false}, {"root-name/leaf-key", pki.Root, pki.LeafKey, false}}
+	e.tcb2, e.tcb2Key, e.rootDP = tcb2, tcb2Key, rootDP
+	e.leafSN, e.interSN, e.tcbSN, e.qeSN = leafSN, interSN, tcbSN, qeSN
+	e.pckSets, e.rootSets, e.pckSigners, e.rootSigners = pckSets, rootSets, pckSigners, rootSigners
+	return e
+}
+
+func runC05(r *mc.Run) {
+	F := world.CachedPKI("F")
+	var envs []*c05env
+	for _, sh := range c05Shapes() {
+		envs = append(envs, c05Env(sh.name, sh.serials))
+	}
+	const dp2 = c05dp2
 	endpoints := []string{"ok", "error", "empty", "garbage", "pem", "other-crl", "F-crl", "truncated"}
 	dps := []string{"one", "none", "two:ok,ok", "two:bad,ok", "two:ok,bad", "two:bad,bad"}
 	bound := 3
@@ -75,6 +144,10 @@ func runC05(r *mc.Run) {
 	}
 	pckCrlURL := world.URLPckCrl("platform")
 	r.Explore("revocation-worlds", bound, func(c *mc.Ctx) {
+		e := envs[c.Choose("serial-shape", len(envs))]
+		w, pki, tcb2, tcb2Key, rootDP := e.w, e.pki, e.tcb2, e.tcb2Key, e.rootDP
+		leafSN, interSN, tcbSN, qeSN := e.leafSN, e.interSN, e.tcbSN, e.qeSN
+		pckSets, rootSets, pckSigners, rootSigners := e.pckSets, e.rootSets, e.pckSigners, e.rootSigners
 		ps := c.Choose("pck.revoked", len(pckSets))
 		rs := c.Choose("root.revoked", len(rootSets))
 		psg := c.Choose("pck.signer", len(pckSigners))
